@@ -201,6 +201,22 @@ def initial_nodes(ctx, rule, check_root_secret=False):
             at, sample=[S(r, 3) for r in roots])
 
 
+def covering_node(P):
+    """the covering node as the callers use it: the found (prefix, seed) pair itself, a borrow of it, or the element of
+    `prefixes` at the position the lookup returned"""
+    from ..sym import index as sym_index
+    n_ = 0
+    while P.op in ("refv", "deref", "conv") and len(P.args) == 1 and n_ < 6:
+        P = P.args[0]
+        n_ += 1
+    if P.op == "iter_position":
+        src_ = P.args[0]
+        while src_.op in ("iter", "cloned_iter", "refv") and src_.args:
+            src_ = src_.args[0]
+        P = sym_index(src_, P)
+    return P
+
+
 def descent_rules(ctx, rule):
     # ---- R4 one lookup, same descent -------------------------------------------------------------------------
     sides = {}
@@ -219,6 +235,7 @@ def descent_rules(ctx, rule):
             ctx.add(rule, root + "#lookup-result", False, "find_prefix has no Ok payload", at)
             continue
         from ..sym import field
+        P = covering_node(P)
         bits = field(field(P, 0), 0)
         seed = field(P, 1)
         off_ok = all(e["argv"][1].op == "len" and e["argv"][1].args[0] is bits for e in sp)
